@@ -212,7 +212,7 @@ def check(case):
             return V("nonfinite-iterate-adopted", "an adopted iterate holds non-finite function values")
         if out.result is not None and out.result.status == SolverStatus.Optimal:
             vw, cw, ow = S.weights_of(solver, spec)
-            bad = SC.kkt_violations(spec, out.result.x, out.result.y, out.result.d, vw, cw, ow)
+            bad = SC.kkt_violations(spec, out.result.x, out.result.y, out.result.d, vw, cw, ow, tau=solver.params.opt_tol, alpha=solver.params.active_tol)
             if bad:
                 return V(f"optimal-despite-fault-violates-{bad[0][0]}", "; ".join(m for _, m in bad[:3]))
         return None
@@ -267,7 +267,7 @@ def check(case):
                         return Vr("failing-point-adopted", f"adopted iterate x={xu.tolist()} lies in the failing region")
         if out.result is not None and out.result.status == SolverStatus.Optimal:
             vw, cw, ow = S.weights_of(solver, spec)
-            bad = SC.kkt_violations(spec, out.result.x, out.result.y, out.result.d, vw, cw, ow)
+            bad = SC.kkt_violations(spec, out.result.x, out.result.y, out.result.d, vw, cw, ow, tau=solver.params.opt_tol, alpha=solver.params.active_tol)
             if bad:
                 return Vr(f"optimal-despite-fault-violates-{bad[0][0]}", "; ".join(m for _, m in bad[:3]))
     labels += [f"phase:{p}" for p in sorted(str(p) for p in phases_seen)]
